@@ -71,6 +71,8 @@ def _generated(rng, multi):
         t = np.array([rng.uniform(-60, 60) for _ in range(3)])
     nmodels = rng.choice([2, 2, 3]) if multi else 1
     model_ids = list(range(1, nmodels + 1)) if multi and rng.random() < 0.6 else sorted(rng.sample([1, 2, 3, 5, 8], nmodels))
+    if multi and rng.random() < 0.5:
+        rng.shuffle(model_ids)  # file order need not be numeric order: "the first model" is the first one LISTED
     if not multi:
         model_ids = [rng.choice([1, 1, 1, 1, 4])]
     skeleton = []  # (record, chain, num, icode, resname, [(atom, xyz)])
